@@ -3,9 +3,11 @@ from __future__ import annotations
 
 import ast
 
+from ..pattern import pmatch, pfind, pall
+
 from ..absval import Lin, Undecided, eval_expr, linform, truth_table
 from ..cfg import CFG, ENTRY
-from ..core import (AnalysisError, call_name, dotted, is_const, local_defs, norm, origin, parent_map,
+from ..core import (alpha, AnalysisError, call_name, dotted, is_const, local_defs, norm, origin, parent_map,
                     walk_local, kwarg)
 from ..facts import guards_of, returns_of, enclosing_loops, assigned_subscripts
 from ..rules import walk as W
@@ -54,10 +56,14 @@ def _pred_structure(rep, fi, table):
         raise AnalysisError(f"{fi.key}: loop over reaction nodes not found")
     lp = outer[0]
     rnode = norm(lp.target)
-    ws = [w for w in W.walks(fi) if w.node == rnode]
+    ws = [w for w in W.walks(fi, graph_names=(fi.params[0],)) if w.node == rnode]
     if not ws:
         _delegated(rep, fi, lp, rnode, table)
         return None
+    # the candidate node set: {order[i] for i in S_idx}
+    sn_pat = f"{{{fi.params[1]}[$i] for $i in {fi.params[3]}}}"
+    SN = [nm for nm, ds in local_defs(fi.node).items() for d_ in ds if d_.kind == "assign" and pmatch(sn_pat, d_.value) is not None]
+    SN = SN[0] if len(SN) == 1 else None
     stages = []
     for w in ws:
         # R5
@@ -66,8 +72,8 @@ def _pred_structure(rep, fi, table):
             rep.ob("O20.1", "R5", fi, (want == w.direction) if want else None, f"G.{w.method}({rnode}) tests role == '{role}'",
                    f"arcs with role '{role}' are {want}-arcs of a reaction node; G.{w.method}({rnode}) on a DiGraph enumerates {w.direction}-arcs",
                    {"walk_direction": w.direction, "writer_direction": want}, node=w.loop)
-        rep.ob("O20.1", "R5", fi, w.species_pos_ok, f"species end `{w.species_var}` of G.{w.method}({rnode})",
-               "the species end of the arc is the end that is not the reaction node", node=w.loop)
+        rep.ob("O20.1", "R5", fi, w.species_pos_ok, f"species end of G.{w.method}({rnode})",
+               "the species end of the arc is the end that is not the reaction node", {"species_var": w.species_var}, node=w.loop)
         # membership + flag
         flags = [n for n in walk_local(w.loop) if isinstance(n, ast.Assign) and isinstance(n.value, ast.Constant) and n.value.value is True]
         if len(flags) != 1:
@@ -79,12 +85,12 @@ def _pred_structure(rep, fi, table):
         for t, s in gs:
             conj += (t.values if isinstance(t, ast.BoolOp) and isinstance(t.op, ast.And) else [t])
         ctxt = [norm(c).replace(" ", "") for c in conj]
-        member = any(c == f"{w.species_var}inS_nodes" for c in ctxt)
-        rep.ob("O20.2", "R13", fi, member, f"{norm(fl)} under {ctxt}", "the flag is raised only for species that belong to the candidate set", node=fl)
+        member = SN is not None and any(c == f"{w.species_var}in{SN}" for c in ctxt)
+        rep.ob("O20.2", "R13", fi, member, f"{alpha(fl, fi.node)} under {[alpha(c, fi.node) for c in conj]}", "the flag is raised only for species that belong to the candidate set", node=fl)
         roles = [r for r, _ in w.roles_tested]
-        extra = [c for c in ctxt if not (c.endswith("inS_nodes") or "role" in c or c.replace("(", "").replace(")", "") in
+        extra = [c for c in ctxt if not (c.endswith(f"in{SN}") or "role" in c or c.replace("(", "").replace(")", "") in
                                          (f"{w.data_var}.get'stoich',0>0", f"{w.data_var}.get'stoich',1>0"))]
-        rep.ob("O20.2", "R13", fi, not extra, f"extra conditions {extra}", "no other condition restricts which arcs count", node=fl)
+        rep.ob("O20.2", "R13", fi, not extra, f"{len(extra)} extra condition(s)", "no other condition restricts which arcs count", {"extra": extra}, node=fl)
         stages.append((norm(fl.targets[0]), roles[0] if len(roles) == 1 else None, w))
     rep.need("R5", len(ws), 2, f"arc walks in {fi.qual}")
     # control skeleton: if not A: continue ; if not B: return False ; return True
@@ -103,7 +109,7 @@ def _pred_structure(rep, fi, table):
     final_true = isinstance(last, ast.Return) and is_const(last.value, True)
     first = [st for st in fi.node.body if isinstance(st, ast.If)]
     empty_rej = bool(first) and norm(first[0].test) == f"not {fi.params[3]}" and is_const(first[0].body[0].value, False)
-    return stages, ctrl, final_true, empty_rej, lp
+    return stages, ctrl, final_true, empty_rej, lp, SN
 
 
 def _delegated(rep, fi, lp, rnode, table):
@@ -151,28 +157,26 @@ def preds(rep, table):
     shapes = {}
     for q, (a_role, b_role, text) in spec.items():
         fi = rep.f(SR, q)
-        directed = W.graph_is_directed(rep.repo, fi, "G")
-        rep.ob("O20.1", "R5", fi, True if directed else None, "G", "the graph walked is the directed bipartite view", {"directed": directed}, node=fi.node)
+        directed = W.graph_is_directed(rep.repo, fi, fi.params[0])
+        rep.ob("O20.1", "R5", fi, True if directed else None, fi.params[0], "the graph walked is the directed bipartite view", {"directed": directed}, node=fi.node)
         res_ = _pred_structure(rep, fi, table)
         if res_ is None:
             continue
-        stages, ctrl, final_true, empty_rej, lp = res_
+        stages, ctrl, final_true, empty_rej, lp, SN = res_
         flag_role = {f: r for f, r, _ in stages}
         ok = None
         if len(ctrl) == 2 and all(c[0] in flag_role for c in ctrl):
             (fa, acta), (fb, actb) = ctrl
             ok = (flag_role[fa] == a_role and acta == "continue" and flag_role[fb] == b_role and actb == "return False" and final_true)
-        rep.ob("O20.2", "R13", fi, ok, f"if not <{ctrl[0][0] if ctrl else '?'}>: {ctrl[0][1] if ctrl else '?'}; if not <{ctrl[1][0] if len(ctrl) > 1 else '?'}>: "
+        rep.ob("O20.2", "R13", fi, ok, f"if not <{flag_role.get(ctrl[0][0]) if ctrl else '?'} flag>: {ctrl[0][1] if ctrl else '?'}; if not <{flag_role.get(ctrl[1][0]) if len(ctrl) > 1 else '?'} flag>: "
                f"{ctrl[1][1] if len(ctrl) > 1 else '?'}; return {final_true}", text,
                {"flag_roles": flag_role, "control": ctrl}, node=lp)
         rep.ob("O20.2", "R13", fi, empty_rej, "if not S_idx: return False", "the empty set is not a siphon/trap", node=fi.node)
         # flags are reset per reaction
         resets = [n for n in lp.body if isinstance(n, ast.Assign) and is_const(n.value, False)]
-        rep.ob("O20.2", "R13", fi, {norm(r.targets[0]) for r in resets} == set(flag_role), [norm(r) for r in resets],
+        rep.ob("O20.2", "R13", fi, {norm(r.targets[0]) for r in resets} == set(flag_role), [alpha(r, fi.node) for r in resets],
                "both flags are reset for every reaction", node=lp)
-        sn = local_defs(fi.node).get("S_nodes", [])
-        okS = bool(sn) and norm(sn[0].value).replace(" ", "") == f"{{{fi.params[1]}[i]foriin{fi.params[3]}}}"
-        rep.ob("O20.2", "R13", fi, okS, sn[0].stmt if sn else "S_nodes", "candidate indices are translated to species nodes through the given order")
+        rep.ob("O20.2", "R13", fi, SN is not None, f"{{{fi.params[1]}[i] for i in {fi.params[3]}}}", "candidate indices are translated to species nodes through the given order")
         shapes[q] = (flag_role, ctrl)
     if len(shapes) < 2:
         return
@@ -202,37 +206,65 @@ def enumeration(rep):
         except Undecided:
             ok = None
         rep.ob("O20.2", "ENUM", fi, ok, rng, "subset sizes run 1..max_size in increasing order (needed by the minimality filter)", node=size_loop[0])
+        # number of species: n = len(<labels>) with labels = _species_order(G)[1]
+        so = {x.index: nm for nm, xs in defs.items() for x in xs if x.index is not None and isinstance(x.value, ast.Call) and call_name(x.value) == "_species_order"}
+        sr_ = {x.index: nm for nm, xs in defs.items() for x in xs if x.index is not None and isinstance(x.value, ast.Call) and call_name(x.value) == "_split_species_reactions"}
+        ORDER, LABELS, RNODES = so.get((0,)), so.get((1,)), sr_.get((1,))
+        ns = [nm for nm, xs in defs.items() for x in xs if x.kind == "assign" and LABELS and norm(x.value) in (f"len({LABELS})", f"len({ORDER})")]
+        NS = ns[0] if ns else None
         ms = [d for d in defs.get("max_size", []) if d.kind == "assign"]
-        okm = bool(ms) and norm(ms[0].value) == "n_s" and any(norm(t) == "max_size is None" and s for t, s in guards_of(pm, ms[0].stmt, fi.node))
-        rep.ob("O20.2", "ENUM", fi, okm, ms[0].stmt if ms else "max_size", "by default all sizes up to the number of species are enumerated")
+        okm = bool(ms) and NS is not None and norm(ms[0].value) == NS and any(norm(t) == "max_size is None" and s_ for t, s_ in guards_of(pm, ms[0].stmt, fi.node))
+        rep.ob("O20.2", "ENUM", fi, okm, alpha(ms[0].stmt, fi.node) if ms else "max_size", "by default all sizes up to the number of species are enumerated")
         comb = [l for l in loops if isinstance(l.iter, ast.Call) and call_name(l.iter) == "combinations"]
-        okc = bool(comb) and norm(comb[0].iter.args[0]) == "all_indices" and norm(comb[0].iter.args[1]) == norm(size_loop[0].target) \
-            and norm(origin(defs, ast.Name(id="all_indices", ctx=ast.Load()))) == "list(range(n_s))"
-        rep.ob("O20.2", "ENUM", fi, okc, comb[0].iter if comb else "combinations", "every subset of the given size is a candidate")
+        okc = bool(comb) and NS is not None and norm(comb[0].iter.args[1]) == norm(size_loop[0].target) \
+            and norm(origin(defs, comb[0].iter.args[0])) in (f"list(range({NS}))", f"range({NS})")
+        rep.ob("O20.2", "ENUM", fi, okc, alpha(comb[0].iter, fi.node) if comb else "combinations", "every subset of the given size is a candidate")
         exits = [n for l in size_loop for n in walk_local(l) if isinstance(n, (ast.Break, ast.Continue, ast.Return))]
         rep.ob("O20.2", "ENUM", fi, not exits, [type(e).__name__ for e in exits], "the enumeration is never cut short")
-        apps = [c for c in walk_local(fi.node) if isinstance(c, ast.Call) and norm(c.func) == "candidates.append"]
-        okp = len(apps) == 1 and [norm(t) for t, s in guards_of(pm, apps[0], size_loop[0]) if s] == [norm(calls[0])] if calls else False
-        rep.ob("O20.2", "ENUM", fi, okp, apps[0] if apps else "candidates.append", "a subset is kept iff it satisfies the predicate")
+        mn = [c for c in walk_local(fi.node) if isinstance(c, ast.Call) and call_name(c) == "_minimal_sets"]
+        CAND = norm(mn[0].args[0]) if mn and mn[0].args else None
+        apps = [c for c in walk_local(fi.node) if CAND and isinstance(c, ast.Call) and norm(c.func) == f"{CAND}.append"]
+        okp = len(apps) == 1 and [norm(t) for t, s_ in guards_of(pm, apps[0], size_loop[0]) if s_] == [norm(calls[0])] if calls else False
+        if calls and apps:
+            okp = okp and norm(apps[0].args[0]) == norm(calls[0].args[3])
+        rep.ob("O20.2", "ENUM", fi, okp, alpha(apps[0], fi.node) if apps else "candidates.append", "a subset is kept iff it satisfies the predicate")
         if calls:
             c = calls[0]
-            cal = rep.f(SR, pred)
-            rep.ob("O20.2", "ENUM", fi, [norm(a) for a in c.args] == cal.params, c, "predicate arguments are bound to the like-named parameters", node=c)
-        mn = [c for c in walk_local(fi.node) if isinstance(c, ast.Call) and call_name(c) == "_minimal_sets"]
-        rep.ob("O20.2", "ENUM", fi, bool(mn) and norm(mn[0].args[0]) == "candidates", mn[0] if mn else "_minimal_sets", "the result is filtered to inclusion-minimal sets")
-        g = [d for d in defs.get("G", []) if d.kind == "assign"]
-        rep.ob("O20.1", "R5", fi, bool(g) and call_name(g[0].value) == "_as_bipartite", g[0].stmt if g else "G", "the predicates receive the directed bipartite view")
+            a_ = c.args
+            okb = len(a_) == 4 and call_name(origin(defs, a_[0])) == "_as_bipartite" and norm(a_[1]) == ORDER and norm(a_[2]) == RNODES and bool(comb) \
+                and isinstance(a_[3], ast.Name) and any(d_.kind == "assign" and norm(d_.value) in (f"set({norm(comb[0].target)})", f"frozenset({norm(comb[0].target)})")
+                                                        for d_ in defs.get(a_[3].id, [])) and not [d_ for d_ in defs.get(a_[3].id, []) if d_.kind not in ("assign", "comp")]
+            rep.ob("O20.2", "ENUM", fi, okb, alpha(c, fi.node), "the predicate receives (view, species order, reaction nodes, candidate index set) in its parameter order", node=c)
+            g0 = origin(defs, a_[0]) if a_ else None
+            rep.ob("O20.1", "R5", fi, isinstance(g0, ast.Call) and call_name(g0) == "_as_bipartite" and norm(g0.args[0]) == fi.params[0], g0 if g0 is not None else "G",
+                   "the predicates receive the directed bipartite view")
+            same_view = all(norm(x.value.args[0]) == norm(a_[0]) for nm, xs in defs.items() for x in xs if x.index is not None and isinstance(x.value, ast.Call)
+                            and call_name(x.value) in ("_species_order", "_split_species_reactions"))
+            rep.ob("O20.2", "ENUM", fi, same_view, "_species_order(G) / _split_species_reactions(G)", "species order and reaction nodes are taken from the same view")
+        rep.ob("O20.2", "ENUM", fi, bool(mn) and len(mn) == 1, mn[0] if mn else "_minimal_sets", "the result is filtered to inclusion-minimal sets")
         rets = returns_of(fi.node)
-        okr = bool(rets) and "species_labels[i]" in norm(rets[-1].value) and "minimal" in norm(rets[-1].value)
-        rep.ob("O20.2", "ENUM", fi, okr, rets[-1] if rets else "return", "indices are translated back to species labels of the same order")
+        okr = False
+        if rets and mn and LABELS:
+            MIN = [nm for nm, xs in defs.items() for x in xs if x.value is mn[0]]
+            m = pmatch(f"[set(({LABELS}[$i] for $i in $S)) for $S in $min]", rets[-1].value) or pmatch(f"[{{{LABELS}[$i] for $i in $S}} for $S in $min]", rets[-1].value)
+            okr = m is not None and bool(MIN) and m["min"] == MIN[0]
+        rep.ob("O20.2", "ENUM", fi, okr, alpha(rets[-1], fi.node) if rets else "return", "indices are translated back to species labels of the same order")
     fi = rep.f(SR, "_minimal_sets")
-    lp = [l for l in walk_local(fi.node) if isinstance(l, ast.For)]
+    C0 = fi.params[0]
+    lp = [l for l in walk_local(fi.node) if isinstance(l, ast.For) and norm(l.iter) == C0]
+    rep.need("ENUM", len(lp), 1, "scan loop in _minimal_sets")
+    S_ = norm(lp[0].target)
     pm = parent_map(fi.node)
+    rets = returns_of(fi.node)
+    OUT = norm(rets[-1].value) if rets else None
     conts = [n for n in walk_local(fi.node) if isinstance(n, ast.Continue)]
-    ok = len(conts) == 1 and [norm(t).replace(" ", "") for t, s in guards_of(pm, conts[0], fi.node)] == ["any((T.issubset(S)forTinout))"]
-    rep.ob("O20.2", "ENUM", fi, ok, conts[0] if conts else "continue", "a candidate is dropped iff an already kept set is contained in it")
-    apps = [c for c in walk_local(fi.node) if isinstance(c, ast.Call) and norm(c.func) == "out.append"]
-    rep.ob("O20.2", "ENUM", fi, len(apps) == 1 and norm(apps[0].args[0]) == "S" and not guards_of(pm, apps[0], lp[0]), apps[0] if apps else "out.append",
+    ok = False
+    if len(conts) == 1:
+        gs = guards_of(pm, conts[0], fi.node)
+        ok = len(gs) == 1 and gs[0][1] and pmatch(f"any(($T.issubset({S_}) for $T in {OUT}))", gs[0][0]) is not None
+    rep.ob("O20.2", "ENUM", fi, ok, "continue under any(T.issubset(S) for T in out)" if ok else (conts[0] if conts else "continue"), "a candidate is dropped iff an already kept set is contained in it")
+    apps = [c for c in walk_local(fi.node) if isinstance(c, ast.Call) and norm(c.func) == f"{OUT}.append"]
+    rep.ob("O20.2", "ENUM", fi, len(apps) == 1 and norm(apps[0].args[0]) == S_ and not guards_of(pm, apps[0], lp[0]), alpha(apps[0], fi.node) if apps else "out.append",
            "every other candidate is kept")
 
 
@@ -243,7 +275,9 @@ def petri(rep):
     loops = [l for l in walk_local(en.node) if isinstance(l, ast.For)]
     rep.need("CMP", len(loops), 1, "loop over pre in enabled")
     lp = loops[0]
-    ok_it = norm(lp.iter).replace(" ", "") == "t.pre.items()" and norm(origin(local_defs(en.node), ast.Name(id="t", ctx=ast.Load()))) == "self.transitions[tid]"
+    MK, TID = en.params[1], en.params[2]
+    itm = pmatch("$t.pre.items()", lp.iter)
+    ok_it = itm is not None and norm(origin(local_defs(en.node), ast.Name(id=itm["t"], ctx=ast.Load()))) == f"self.transitions[{TID}]"
     rep.ob("O20.3", "CMP", en, ok_it, lp.iter, "enabledness is decided from the transition's own pre-set")
     p, w = [norm(e) for e in lp.target.elts]
     falses = [r for r in walk_local(lp) if isinstance(r, ast.Return) and is_const(r.value, False)]
@@ -256,7 +290,7 @@ def petri(rep):
                 for ww in (1, 2, 3):
                     val = True
                     for t, s in gs:
-                        r = bool(eval_expr(t, {f"marking.get({p}, 0)": m, w: ww}))
+                        r = bool(eval_expr(t, {f"{MK}.get({p}, 0)": m, w: ww}))
                         val = val and (r if s else not r)
                     if val != (m < ww):
                         bad.append((m, ww, val))
@@ -272,8 +306,10 @@ def petri(rep):
     # fire
     fr = rep.f(NET, "PetriNet.fire")
     defs = local_defs(fr.node)
-    m = [d for d in defs.get("m", []) if d.kind == "assign"]
-    rep.ob("O20.3", "R15", fr, bool(m) and norm(m[0].value) == "dict(marking)", m[0].stmt if m else "m", "firing works on a copy of the marking")
+    frets = returns_of(fr.node)
+    MV = norm(frets[-1].value) if frets and isinstance(frets[-1].value, ast.Name) else None
+    m = [d for d in defs.get(MV or "", []) if d.kind == "assign"]
+    rep.ob("O20.3", "R15", fr, bool(m) and norm(m[0].value) in (f"dict({fr.params[1]})", f"{fr.params[1]}.copy()"), alpha(m[0].stmt, fr.node) if m else "m", "firing works on a copy of the marking")
     seen = {}
     for lp in [l for l in walk_local(fr.node) if isinstance(l, ast.For)]:
         side = "pre" if ".pre.items()" in norm(lp.iter) else ("post" if ".post.items()" in norm(lp.iter) else None)
@@ -281,22 +317,22 @@ def petri(rep):
             continue
         p, w = [norm(e) for e in lp.target.elts]
         for t, v, st in assigned_subscripts(lp):
-            if norm(t.value) != "m":
+            if norm(t.value) != MV:
                 continue
             try:
                 if isinstance(st, ast.AugAssign):
                     lf = Lin({"old": 1}) + (linform(v, lambda n: "w" if norm(n) == w else None).scale(1 if isinstance(st.op, ast.Add) else -1))
                 else:
-                    lf = linform(v, lambda n: "w" if norm(n) == w else ("old" if norm(n).replace(" ", "") == f"m.get({p},0)" else None))
+                    lf = linform(v, lambda n: "w" if norm(n) == w else ("old" if norm(n).replace(" ", "") == f"{MV}.get({p},0)" else None))
                 want = Lin({"old": 1, "w": -1 if side == "pre" else 1})
                 seen[side] = lf == want
-                rep.ob("O20.3", "R15", fr, lf == want, st, f"firing {'removes pre' if side == 'pre' else 'adds post'}-weight tokens: new = old {'-' if side == 'pre' else '+'} w",
+                rep.ob("O20.3", "R15", fr, lf == want, alpha(st, fr.node), f"firing {'removes pre' if side == 'pre' else 'adds post'}-weight tokens: new = old {'-' if side == 'pre' else '+'} w",
                        {"linear_form": lf.pretty()}, node=st)
             except Undecided as exc:
                 rep.ob("O20.3", "R15", fr, None, st, str(exc), node=st)
     rep.ob("O20.3", "R15", fr, set(seen) == {"pre", "post"}, sorted(seen), "both the pre-set and the post-set are applied")
     rets = returns_of(fr.node)
-    rep.ob("O20.3", "R15", fr, bool(rets) and norm(rets[-1].value) == "m", rets[-1] if rets else "return", "fire returns the updated copy")
+    rep.ob("O20.3", "R15", fr, MV is not None and len(rets) == 1, "return <copy>", "fire returns the updated copy")
 
 
 # ------------------------------------------------------------------ O20.4
@@ -304,25 +340,53 @@ def build_net(rep):
     fi = rep.f(RZ, "PathwayRealizability.build_petri_net_from_flow")
     defs = local_defs(fi.node)
     pm = parent_map(fi.node)
-    w = {norm(t): (norm(v), st) for t, v, st in assigned_subscripts(fi.node)}
-    ok = w.get("M0[v]", ("",))[0] == "0" and w.get("MT[v]", ("",))[0] == "0"
-    rep.ob("O20.4", "R15", fi, ok, "M0[v] = 0; MT[v] = 0", "species places start and end with zero tokens")
-    ok = w.get("M0[ve]", ("",))[0] == "fval" and w.get("MT[ve_t]", ("",))[0] == "fval" and "M0[ve_t]" not in w and "MT[ve]" not in w
+    # roles of the locals, from where they are stored
+    st_ = {norm(n.targets[0]): n.value for n in walk_local(fi.node) if isinstance(n, ast.Assign) and norm(n.targets[0]).startswith("self._")}
+    m0 = pmatch("dict($m)", st_.get("self._initial_marking"))
+    mt = pmatch("dict($m)", st_.get("self._target_marking"))
+    net = st_.get("self._petri")
+    if not (m0 and mt and isinstance(net, ast.Name)):
+        raise AnalysisError("build_petri_net_from_flow: stored net / markings not recognised")
+    M0, MT, NETV = m0["m"], mt["m"], net.id
+    vl = [l for l in walk_local(fi.node) if isinstance(l, ast.For) and norm(l.iter) == "self.vertices"]
+    el = [l for l in walk_local(fi.node) if isinstance(l, ast.For) and norm(l.iter) == "self.edges.items()"]
+    rep.need("R15", len(vl) + len(el), 2, "vertex loop and edge loop in build_petri_net_from_flow")
+    v = norm(vl[0].target)
+    b = pall([f"{NETV}.add_place({v})", f"{M0}[{v}] = 0", f"{MT}[{v}] = 0"], vl[0])
+    rep.ob("O20.4", "R15", fi, b is not None, "M0[v] = 0; MT[v] = 0", "species places start and end with zero tokens")
+    et = pmatch("($eid, ($tail, $head))", el[0].target)
+    if et is None:
+        raise AnalysisError("edge loop target is not (eid, (tail, head))")
+    eid, tail, head = et["eid"], et["tail"], et["head"]
+    at = [c for c in walk_local(el[0]) if isinstance(c, ast.Call) and norm(c.func) == f"{NETV}.add_transition"]
+    rep.need("R15", len(at), 1, "add_transition in build_petri_net_from_flow")
+    a_ = at[0].args
+    PRE_S, POST_T = norm(a_[1]), norm(a_[2])
+    ok = len(a_) == 3 and norm(origin(defs, a_[0])) == eid
+    rep.ob("O20.4", "R15", fi, ok, "net.add_transition(t_id, pre + supply, post + target)", "the transition is registered with (pre + supply, post + target)")
+    w = {norm(t): (v_, st) for t, v_, st in assigned_subscripts(el[0])}
+    ones_pre = [k for k, (v_, _) in w.items() if k.startswith(f"{PRE_S}[") and is_const(v_, 1)]
+    ones_post = [k for k, (v_, _) in w.items() if k.startswith(f"{POST_T}[") and is_const(v_, 1)]
+    VE = ones_pre[0][len(PRE_S) + 1:-1] if len(ones_pre) == 1 else None
+    VET = ones_post[0][len(POST_T) + 1:-1] if len(ones_post) == 1 else None
+    ok = VE is not None and VET is not None and VE != VET and bool(pfind(f"{NETV}.add_place({VE})", el[0])) and bool(pfind(f"{NETV}.add_place({VET})", el[0])) \
+        and eid in norm(origin(defs, ast.Name(id=VE, ctx=ast.Load()))) and eid in norm(origin(defs, ast.Name(id=VET, ctx=ast.Load()))) \
+        and norm(origin(defs, ast.Name(id=VE, ctx=ast.Load()))) != norm(origin(defs, ast.Name(id=VET, ctx=ast.Load())))
+    rep.ob("O20.4", "R15", fi, ok, "pre_with_supply[ve] = 1; post_with_target[ve_t] = 1", "each firing consumes one supply token and deposits one target token (places private to the reaction)")
+    m0w, mtw = w.get(f"{M0}[{VE}]"), w.get(f"{MT}[{VET}]")
+    ok = m0w is not None and mtw is not None and norm(m0w[0]) == norm(mtw[0]) and f"{M0}[{VET}]" not in w and f"{MT}[{VE}]" not in w
     rep.ob("O20.4", "R15", fi, ok, "M0[ve] = fval; MT[ve_t] = fval", "supply place starts with flow(e) tokens, target place must end with flow(e) tokens (each reaction fires exactly flow(e) times)")
-    fv = origin(defs, ast.Name(id="fval", ctx=ast.Load()))
-    rep.ob("O20.4", "R15", fi, norm(fv).replace(" ", "") == "int(self.flow.get(eid,0))", fv, "the token count is the prescribed flow of that reaction")
-    ok = w.get("pre_with_supply[ve]", ("",))[0] == "1" and w.get("post_with_target[ve_t]", ("",))[0] == "1"
-    rep.ob("O20.4", "R15", fi, ok, "pre_with_supply[ve] = 1; post_with_target[ve_t] = 1", "each firing consumes one supply token and deposits one target token")
-    pre = origin(defs, ast.Name(id="pre", ctx=ast.Load()))
-    post = origin(defs, ast.Name(id="post", ctx=ast.Load()))
-    ok = isinstance(pre, ast.DictComp) and "tail.items()" in norm(pre) and isinstance(post, ast.DictComp) and "head.items()" in norm(post)
+    fv = origin(defs, m0w[0]) if m0w else None
+    rep.ob("O20.4", "R15", fi, fv is not None and norm(fv).replace(" ", "") == f"int(self.flow.get({eid},0))", fv if fv is not None else "fval", "the token count is the prescribed flow of that reaction")
+    d1 = origin(defs, a_[1])
+    d2 = origin(defs, a_[2])
+    p1, p2 = pmatch("dict($p)", d1), pmatch("dict($p)", d2)
+    rep.ob("O20.4", "R15", fi, p1 is not None and p2 is not None, "dict(pre) / dict(post)", "supply/target places extend copies of the species pre/post sets")
+    pre = origin(defs, ast.Name(id=p1["p"], ctx=ast.Load())) if p1 else None
+    post = origin(defs, ast.Name(id=p2["p"], ctx=ast.Load())) if p2 else None
+    ok = pre is not None and post is not None and pmatch(f"{{$v: int($w) for $v, $w in {tail}.items() if int($w) > 0}}", pre) is not None \
+        and pmatch(f"{{$v: int($w) for $v, $w in {head}.items() if int($w) > 0}}", post) is not None
     rep.ob("O20.4", "R15", fi, ok, "pre <- tail, post <- head", "reactants form the pre-set and products the post-set of the transition")
-    at = [c for c in walk_local(fi.node) if isinstance(c, ast.Call) and norm(c.func) == "net.add_transition"]
-    ok = bool(at) and [norm(a) for a in at[0].args] == ["t_id", "pre_with_supply", "post_with_target"]
-    rep.ob("O20.4", "R15", fi, ok, at[0] if at else "add_transition", "the transition is registered with (pre + supply, post + target)")
-    d1 = origin(defs, ast.Name(id="pre_with_supply", ctx=ast.Load()))
-    d2 = origin(defs, ast.Name(id="post_with_target", ctx=ast.Load()))
-    rep.ob("O20.4", "R15", fi, norm(d1) == "dict(pre)" and norm(d2) == "dict(post)", "dict(pre) / dict(post)", "supply/target places extend copies of the species pre/post sets")
 
 
 def bfs(rep):
@@ -330,51 +394,71 @@ def bfs(rep):
     cfg = CFG(fi.node)
     pm = parent_map(fi.node)
     defs = local_defs(fi.node)
-    fires = [c for c in walk_local(fi.node) if isinstance(c, ast.Call) and norm(c.func) == "net.fire"]
+    nets = [nm for nm, ds in defs.items() for d_ in ds if d_.kind == "assign" and norm(d_.value) == "self.petri"]
+    rep.need("DOM", len(nets), 1, "net = self.petri in is_realizable")
+    NETV = nets[0]
+    fires = [c for c in walk_local(fi.node) if isinstance(c, ast.Call) and norm(c.func) == f"{NETV}.fire"]
     rep.need("DOM", len(fires), 1, "net.fire in is_realizable")
     for c in fires:
         args = [norm(a) for a in c.args]
         gs = [(norm(t).replace(" ", ""), s) for t, s in guards_of(pm, c, fi.node)]
-        ok = (f"net.enabled({args[0]},{args[1]})", True) in gs
-        rep.ob("O20.4", "DOM", fi, ok, f"net.fire({', '.join(args)}) under {[g for g, _ in gs]}",
-               "a transition is fired only where it is enabled in the same marking (no species count can go negative)", node=c)
+        ok = (f"{NETV}.enabled({args[0]},{args[1]})", True) in gs
+        rep.ob("O20.4", "DOM", fi, ok, f"net.fire(marking, tid) under {len(gs)} guard(s)",
+               "a transition is fired only where it is enabled in the same marking (no species count can go negative)", {"guards": [g for g, _ in gs]}, node=c)
+    MK, TID = (norm(a) for a in fires[0].args[:2])
+    NEWM = [nm for nm, ds in defs.items() for d_ in ds if d_.value is fires[0]]
+    NEWT = [nm for nm, ds in defs.items() for d_ in ds if d_.kind == "assign" and NEWM and pmatch(f"{NETV}.marking_to_tuple({NEWM[0]})", d_.value) is not None]
+    rep.ob("O20.4", "DOM", fi, len(NEWM) == 1 and len(NEWT) == 1, "new_tuple = net.marking_to_tuple(net.fire(...))", "the compared marking is the one produced by the firing")
+    if not NEWT:
+        return
+    NT = NEWT[0]
     # success only on equality with the target
     succ = [r for r in returns_of(fi.node) if isinstance(r.value, ast.Tuple) and is_const(r.value.elts[0], True)]
     rep.need("DOM", len(succ), 1, "success returns")
-    tgt = origin(defs, ast.Name(id="target", ctx=ast.Load()))
-    rep.ob("O20.4", "DOM", fi, norm(tgt) == "net.marking_to_tuple(MT)" and norm(origin(defs, ast.Name(id="MT", ctx=ast.Load()))) == "dict(self.target_marking)",
-           tgt, "the target of the search is the target marking")
+    M0 = [nm for nm, ds in defs.items() for d_ in ds if d_.kind == "assign" and norm(d_.value) == "dict(self.initial_marking)"]
+    MT = [nm for nm, ds in defs.items() for d_ in ds if d_.kind == "assign" and norm(d_.value) == "dict(self.target_marking)"]
+    TG = [nm for nm, ds in defs.items() for d_ in ds if d_.kind == "assign" and MT and pmatch(f"{NETV}.marking_to_tuple({MT[0]})", d_.value) is not None]
+    ST = [nm for nm, ds in defs.items() for d_ in ds if d_.kind == "assign" and M0 and pmatch(f"{NETV}.marking_to_tuple({M0[0]})", d_.value) is not None]
+    rep.ob("O20.4", "DOM", fi, len(TG) == 1 and len(ST) == 1, "target = net.marking_to_tuple(dict(self.target_marking))", "the target of the search is the target marking (and the start the initial marking)")
+    if not TG or not ST:
+        return
+    pops = [c for c in walk_local(fi.node) if isinstance(c, ast.Call) and call_name(c) in ("popleft", "pop") and isinstance(c.func.value, ast.Name)]
+    Q = pops[0].func.value.id if pops else None
+    pu = [(nm, d_.index) for nm, ds in defs.items() for d_ in ds if pops and d_.value is pops[0] and d_.index is not None]
+    MTUP = next((nm for nm, ix in pu if ix == (0,)), None)
+    SEQ = next((nm for nm, ix in pu if ix == (1,)), None)
     for r in succ:
-        gs = [(norm(t).replace(" ", ""), s) for t, s in guards_of(pm, r, fi.node)]
+        gs = [(t, s) for t, s in guards_of(pm, r, fi.node)]
         inloop = bool(enclosing_loops(pm, r, fi.node))
         if inloop:
-            ok = ("new_tuple==target", True) in gs
-            rep.ob("O20.4", "DOM", fi, ok, f"return True under {[g for g, _ in gs]}", "success is reported only when the reached marking equals the target", node=r)
-            cert = norm(r.value.elts[1])
+            ok = any(s and (pmatch(f"{NT} == {TG[0]}", t) is not None or pmatch(f"{TG[0]} == {NT}", t) is not None) for t, s in gs)
+            rep.ob("O20.4", "DOM", fi, ok, f"return True under {len(gs)} guard(s)", "success is reported only when the reached marking equals the target", node=r)
             src = origin(defs, r.value.elts[1])
-            rep.ob("O20.4", "DOM", fi, norm(src).replace(" ", "") == "seq+[tid]", src, "the certificate is the firing sequence that produced this marking", node=r)
+            rep.ob("O20.4", "DOM", fi, SEQ is not None and norm(src).replace(" ", "") == f"{SEQ}+[{TID}]", alpha(src, fi.node), "the certificate is the firing sequence that produced this marking", node=r)
         else:
-            ok = any("M0.get(p,0)==MT.get(p,0)" in g for g, _ in gs)
-            rep.ob("O20.4", "DOM", fi, ok, f"return True under {[g for g, _ in gs]}", "the empty sequence is returned only if the start already equals the target", node=r)
+            ok = any(s and f"{M0[0]}.get(" in norm(t) and f"{MT[0]}.get(" in norm(t) and "==" in norm(t) and norm(t).startswith("all(") for t, s in gs)
+            rep.ob("O20.4", "DOM", fi, ok, f"return True under {len(gs)} guard(s)", "the empty sequence is returned only if the start already equals the target", node=r)
     neg = [r for r in returns_of(fi.node) if isinstance(r.value, ast.Tuple) and is_const(r.value.elts[0], False)]
     for r in neg:
         gs = guards_of(pm, r, fi.node)
         lps_ = enclosing_loops(pm, r, fi.node)
         after_search = fi.node.body[-1] is r and not gs
-        rep.ob("O20.4", "DOM", fi, after_search and not lps_, f"return False under {[norm(t)[:50] for t, _ in gs]}",
+        rep.ob("O20.4", "DOM", fi, after_search and not lps_, f"return False under {len(gs)} guard(s)",
                "a pathway is reported unrealizable only after the bounded search is exhausted (no shortcut may reject a flow that has a valid ordering)", node=r)
     rep.ob("O20.4", "DOM", fi, len(neg) == 1, f"{len(neg)} negative return(s)", "there is exactly one negative verdict, at the end of the search")
-    nt = origin(defs, ast.Name(id="new_tuple", ctx=ast.Load()))
-    nm = origin(defs, ast.Name(id="new_mark", ctx=ast.Load()))
-    rep.ob("O20.4", "DOM", fi, norm(nt) == "net.marking_to_tuple(new_mark)" and nm in fires, nt, "the compared marking is the one produced by the firing")
     # visited set, FIFO, bounds only cut
-    app = [c for c in walk_local(fi.node) if isinstance(c, ast.Call) and norm(c.func) == "q.append" and enclosing_loops(pm, c, fi.node)]
+    app = [c for c in walk_local(fi.node) if Q and isinstance(c, ast.Call) and norm(c.func) == f"{Q}.append" and enclosing_loops(pm, c, fi.node)]
+    rep.need("DOM", len(app), 1, "q.append inside the search loop")
     for c in app:
-        gs = [(norm(t).replace(" ", ""), s) for t, s in guards_of(pm, c, fi.node)]
-        rep.ob("O20.4", "DOM", fi, ("new_tuplenotinvisited", True) in gs, c, "a marking is queued once (visited set)", node=c)
-        rep.ob("O20.4", "DOM", fi, norm(c.args[0]).replace(" ", "") == "(new_tuple,seq+[tid])", c, "queued with the sequence that reaches it", node=c)
-    pops = [c for c in walk_local(fi.node) if isinstance(c, ast.Call) and norm(c.func) in ("q.popleft", "q.pop")]
-    rep.ob("O20.4", "DOM", fi, bool(pops) and norm(pops[0].func) == "q.popleft", pops[0] if pops else "q.popleft", "breadth-first order (FIFO)")
+        gs = [t for t, s in guards_of(pm, c, fi.node) if s]
+        vm = [pmatch(f"{NT} not in $vis", t) for t in gs]
+        vm = [m for m in vm if m]
+        okv = bool(vm) and bool(pfind(f"{vm[0]['vis']}.add({NT})", fi.node))
+        rep.ob("O20.4", "DOM", fi, okv, "q.append under `new not in visited`", "a marking is queued once (visited set)", node=c)
+        rep.ob("O20.4", "DOM", fi, SEQ is not None and norm(c.args[0]).replace(" ", "") == f"({NT},{SEQ}+[{TID}])", alpha(c, fi.node), "queued with the sequence that reaches it", node=c)
+    rep.ob("O20.4", "DOM", fi, bool(pops) and call_name(pops[0]) == "popleft", "q.popleft()" if pops and call_name(pops[0]) == "popleft" else "q.pop()", "breadth-first order (FIFO)")
+    seed = [c for c in walk_local(fi.node) if Q and isinstance(c, ast.Call) and norm(c.func) == f"{Q}.append" and not enclosing_loops(pm, c, fi.node)]
+    rep.ob("O20.4", "DOM", fi, len(seed) == 1 and norm(seed[0].args[0]).replace(" ", "") == f"({ST[0]},[])", alpha(seed[0], fi.node) if seed else "q.append((start, []))", "the search starts from the initial marking with the empty sequence")
     wl = [l for l in walk_local(fi.node) if isinstance(l, ast.While)]
     cuts = [n for n in (walk_local(wl[0]) if wl else []) if isinstance(n, (ast.Break, ast.Continue))]
     okc = True
@@ -383,14 +467,15 @@ def bfs(rep):
         if not any("max_states" in x or "max_depth" in x for x in g):
             okc = False
     rep.ob("O20.4", "DOM", fi, okc, [type(n).__name__ for n in cuts], "the search is cut only by the state/depth bounds")
-    tl = [l for l in walk_local(fi.node) if isinstance(l, ast.For) and norm(l.iter) == "net.transitions"]
-    rep.ob("O20.4", "DOM", fi, len(tl) == 1, tl[0].iter if tl else "for tid in net.transitions", "every transition is tried in every explored marking")
-    mk = origin(defs, ast.Name(id="marking", ctx=ast.Load()))
-    rep.ob("O20.4", "DOM", fi, norm(mk).replace(" ", "") == "{p:mtuple[net._place_index[p]]forpinnet._place_index}", mk,
+    tl = [l for l in walk_local(fi.node) if isinstance(l, ast.For) and norm(l.iter) == f"{NETV}.transitions"]
+    rep.ob("O20.4", "DOM", fi, len(tl) == 1 and norm(tl[0].target) == TID, "for tid in net.transitions", "every transition is tried in every explored marking")
+    mk = origin(defs, ast.Name(id=MK, ctx=ast.Load()))
+    ok = MTUP is not None and pmatch(f"{{$p: {MTUP}[{NETV}._place_index[$p]] for $p in {NETV}._place_index}}", mk) is not None
+    rep.ob("O20.4", "DOM", fi, ok, alpha(mk, fi.node),
            "the explored marking is decoded with the same place order that encodes it")
     mt = rep.f(NET, "PetriNet.marking_to_tuple")
-    ok = any(norm(t).replace(" ", "") == "arr[idx]" and norm(v).replace(" ", "") == "int(m.get(p,0))" for t, v, st in assigned_subscripts(mt.node))
-    rep.ob("O20.4", "DOM", mt, ok, "arr[idx] = int(m.get(p, 0))", "markings are encoded by the fixed place index")
+    b = pall([f"for $p, $i in self._place_index.items():\n    $arr[$i] = int({mt.params[1]}.get($p, 0))", "return tuple($arr)"], mt.node)
+    rep.ob("O20.4", "DOM", mt, b is not None, "arr[idx] = int(m.get(p, 0))", "markings are encoded by the fixed place index")
 
 
 MUTANTS = [
